@@ -8,6 +8,8 @@ CRATE = "e_writer"
 DRIVER = "drv_writer"
 DRIVER_MODULE = "Driver.Writer"
 PROPS = "RlibModel.Props.C09"
+# bridge to the Reader model of C08 (imported and re-exported by Props/C09.lean, so its theorems are audited as C09 obligations)
+EXTRA_LAKE_TARGETS = ["RlibModel.Props.C09Bridge"]
 PROFILES = ["release", "debug"]     # Writer flushes after every write under debug_assertions
 SHRINK_SEP = ";"
 RULE = ("cases = write scripts (write of any of the 12 integer types / &str / String / Vec / tuple 2..8, write_char, flush, "
@@ -35,7 +37,10 @@ MANIFEST = {
              "after any sequence of writes sink ++ pending = concatenation of the standard renderings, for both flush-per-write "
              "settings, every BUF_SIZE >= 39 and every fill level; flush/drop deliver it; no piece ever exceeds the buffer; the "
              "backward digit loop in a BASE_10_LEN buffer never underflows and equals Nat.toDigits 10 for every value of every width "
-             "(signed MIN included); tokenising and parsing the produced text returns the values."),
+             "(signed MIN included); tokenising and parsing the produced text returns the values; and (bridge to the Reader model of C08) "
+             "the sink bytes of the dropped writer, delivered to the Reader model under any chunking / Interrupted placement and any reader "
+             "buffer size >= 1, are read back by read::<T>() per written integer / ASCII word (then is_eof() is true), and outln! lines by "
+             "read_line()/read_lines()."),
     "note": ("Trusted: Lean kernel, axioms propext/Classical.choice/Quot.sound, the hand-written model (checked against the code on "
              "generated scripts in a release and a debug build), std's write_all, harness and driver plumbing, FNV comparison of long outputs."),
     "technique": "Lean 4 proof of a hand-written model + differential correspondence check against the Rust crate in two build profiles",
